@@ -1,12 +1,25 @@
-//! Correspondence + oracle harness for neuppl/rsdd.  Rebuilt from /repo's working tree on
+//! Correspondence + oracle harness for neuppl/rsdd (library part; one binary per property in src/bin).  Rebuilt from /repo's working tree on
 //! every check.  usage: harness <PROP> gen|replay --seed S --n N --tier quick|thorough --out DIR [--cases FILE]
-mod props;
-mod util;
+pub mod util;
 use std::collections::HashSet;
 use std::io::Write;
-use util::*;
+pub use util::*;
 
-fn main() {
+#[derive(Clone, Copy)]
+pub struct Prop {
+    /// gen(rng, index, total, thorough) -> case text (one line, no id)
+    pub gen: fn(&mut Rng, usize, usize, bool) -> String,
+    /// run(case, stats) -> canonical result line + oracle verdicts
+    pub run: fn(&str, &mut Stats) -> Outcome,
+    /// is a panic on this case acceptable (documented guard), i.e. not a violation?
+    pub panic_ok: fn(&str) -> bool,
+}
+
+pub fn never(_: &str) -> bool {
+    false
+}
+
+pub fn run_main(p: Prop) {
     let args: Vec<String> = std::env::args().collect();
     if args.len() < 3 {
         eprintln!("usage: harness <PROP> gen|replay --seed S --n N --tier T --out DIR [--cases FILE]");
@@ -32,10 +45,7 @@ fn main() {
         i += 2;
     }
     std::panic::set_hook(Box::new(|_| {}));
-    let p = props::lookup(&prop).unwrap_or_else(|| {
-        eprintln!("unknown property {prop}");
-        std::process::exit(2)
-    });
+    let _ = prop;
     let thorough = tier == "thorough";
     // cases: corpus / replay file first, then generated
     let mut cases: Vec<String> = Vec::new();
